@@ -399,6 +399,14 @@ def run(ctx):
         for at in rng.sample(["args", "pt", "jets", "value", "keys"], 2):
             cases.append((rng.choice(["Select", "SelectMany"]), f"{recv}.{at}[{rng.choice(['0', chr(39) + 'zz' + chr(39), 'e.n'])}]({rng.choice(['e', 'e.pt', '1, k=e'])})",
                           rng.choice(["str", "ast", "callable"])))
+    # the same on a field of a dictionary literal (its dataclass is a class, but a field is not a property) and on a value
+    # built from one (repo fix for `{'a': e.x, 'pt': abs}.pt['a'](1)`)
+    for recv in ["{'a': e.x, 'pt': abs}", "{'pt': e, 'n': 1}", "(lambda d: d)({'pt': e.x, 'n': 2})"]:
+        for at in ["pt", "n", "a"]:
+            if f"'{at}'" not in recv:
+                continue
+            for sl in ["'a'", "0", "e.k"]:
+                cases.append((rng.choice(["Select", "SelectMany"]), f"{recv}.{at}[{sl}]({rng.choice(['1', 'e', 'k=e.pt'])})", rng.choice(["str", "ast"])))
     # a dictionary literal looked up with a key that is itself a literal container (not hashable): a designed refusal
     for key in ["{}", "{'a': 1}", "[1]", "[]", "(1, [2])", "{1}", "('a',)", "b'a'", "None", "1.5"]:
         cases.append((rng.choice(["Select", "SelectMany", "Where"]), f"{{'pt': 1, 'q': e}}[{key}]", rng.choice(["str", "ast", "callable"])))
